@@ -4,16 +4,28 @@
   positive definite as soon as the static precisions are positive).
 -/
 import Jb.Proofs.Ldl
+import Jb.Proofs.PivotsAux
 
 set_option linter.unusedSectionVars false
 
 namespace Jb
+
+open Finset
 
 variable {K : Type} [Field K] [LinearOrder K] [IsStrictOrderedRing K]
 
 /-- the quadratic form `xᵀ A x` of the symmetric band matrix stored in `rows` -/
 def bandQuad (w : Nat) (rows : List (List K)) (x : List K) : K :=
   (Finset.range rows.length).sum fun t => x.getD t 0 * bandMulVec w rows x t
+
+/-- the list-level quadratic form is the function-level one -/
+theorem bandQuad_eq_quadF (w : Nat) (hw : 1 ≤ w) (rows : List (List K))
+    (hrow : ∀ row ∈ rows, row.length = w) (x : List K) :
+    bandQuad w rows x = quadF rows.length (bandAt rows) (fun s => x.getD s 0) := by
+  unfold bandQuad quadF
+  apply sum_congr rfl
+  intro t ht
+  rw [bandMulVec_eq w hw rows hrow x t (mem_range.mp ht)]
 
 /-- **Pivots are positive.** If the stored symmetric band matrix is positive definite (on vectors of the
     right length), every pivot `d_t` the factorisation divides by is positive. -/
@@ -22,6 +34,25 @@ theorem ldl_pivots_pos (w : Nat) (hw : 1 ≤ w) (rows : List (List K))
     (hpd : ∀ x : List K, x.length = rows.length → (∃ t, t < rows.length ∧ x.getD t 0 ≠ 0) →
       0 < bandQuad w rows x) :
     ∀ t, t < rows.length → 0 < bandAt (ldlRows w rows) t 0 := by
-  sorry
+  intro t
+  induction t using Nat.strong_induction_on with
+  | _ t ih =>
+    intro ht
+    obtain ⟨x, hxt, hx0, hq⟩ := exists_pivot_vector t (bandAt rows) (bandAt (ldlRows w rows))
+      (fun s => bandAt (ldlRows w rows) s 0)
+      (fun s hs => ldl_Rd w hw rows s (by omega))
+      (fun s hs j hj => ldl_Rl w hw rows hrow s (by omega)
+        (ne_of_gt (ih s (by omega) (by omega))) j hj)
+    have hget : (fun s => ((List.range rows.length).map x).getD s 0) = x := by
+      funext s
+      rcases Nat.lt_or_ge s rows.length with h | h
+      · rw [List.getD_eq_getElem _ _ (by simpa using h)]
+        simp
+      · rw [List.getD_eq_default _ _ (by simpa using h), hx0 s (by omega)]
+    have hpos := hpd ((List.range rows.length).map x) (by simp)
+      ⟨t, ht, by rw [congrFun hget t, hxt]; exact one_ne_zero⟩
+    rw [bandQuad_eq_quadF w hw rows hrow, hget,
+      quadF_shrink rows.length (t + 1) (by omega) _ _ (fun s hs => hx0 s (by omega)), hq] at hpos
+    exact hpos
 
 end Jb
